@@ -209,8 +209,30 @@ def run_fake(cfg, seed, outdir, resume_after=None):
             orig(self_)
             snaps.append(snapshot(self_, "iteration"))
 
-        with mock.patch.object(ImportanceNestedSampler, "update_evidence", wrapped):
+        mid = cfg.get("resume_mid")
+        orig_ckpt = ImportanceNestedSampler.checkpoint
+
+        def ckpt_copy(self_, periodic=False, force=False):
+            orig_ckpt(self_, periodic=periodic, force=force)
+            # keep the iteration-boundary checkpoint written after `mid` iterations
+            if mid and periodic and not self_.finalised and self_.iteration == mid:
+                shutil.copy(os.path.join(outdir, "ckpt.pkl"), os.path.join(outdir, "ckpt_mid.pkl"))
+
+        with mock.patch.object(ImportanceNestedSampler, "update_evidence", wrapped), \
+                mock.patch.object(ImportanceNestedSampler, "checkpoint", ckpt_copy):
             sampler.nested_sampling_loop()
+        if mid and os.path.exists(os.path.join(outdir, "ckpt_mid.pkl")):
+            # kill after `mid` iterations: resume from that boundary checkpoint with a fresh model and finish the run
+            import pickle
+            del snaps[mid:]
+            with open(os.path.join(outdir, "ckpt_mid.pkl"), "rb") as f:
+                sm = pickle.load(f)
+            sampler = ImportanceNestedSampler.resume_from_pickled_sampler(sm, make_model(dims, seed, cfg.get("cut", False)))
+            snaps.append(snapshot(sampler, "resumed"))
+            np.random.seed(seed + 1)
+            torch.manual_seed(seed + 1)
+            with mock.patch.object(ImportanceNestedSampler, "update_evidence", wrapped):
+                sampler.nested_sampling_loop()
         snaps.append(snapshot(sampler, "finalised"))
         level_c = [m.c.numpy().copy() for m in sampler.proposal.flow.models]
         if resume_after:
@@ -426,6 +448,8 @@ CONFIGS = [
     dict(dims=2, nlive=50, levels=3, strict=False, replace_all=False, draw_constant=False, iid=True, reparam=None, q=0.7, min_samples=20, save_log_q=False, weighted_kl=True),
     dict(dims=2, nlive=50, levels=3, strict=False, replace_all=False, draw_constant=True, iid=True, reparam="logit", q=0.5, min_samples=20, save_log_q=True, weighted_kl=True, cut=True),
     dict(dims=2, nlive=40, levels=4, strict=True, replace_all=False, draw_constant=True, iid=False, reparam=None, q=0.5, min_samples=10, save_log_q=False, weighted_kl=False, cut=True),
+    dict(dims=2, nlive=40, levels=4, strict=False, replace_all=False, draw_constant=True, iid=True, reparam="logit", q=0.5, min_samples=15, save_log_q=False, weighted_kl=True, resume_mid=2),
+    dict(dims=2, nlive=40, levels=4, strict=True, replace_all=False, draw_constant=True, iid=False, reparam=None, q=0.5, min_samples=15, save_log_q=True, weighted_kl=False, cut=True, resume_mid=1),
     dict(dims=2, nlive=30, levels=5, strict=True, replace_all=False, draw_constant=True, iid=False, reparam=None, q=0.5, min_samples=10, save_log_q=True, weighted_kl=True),
 ]
 
@@ -469,7 +493,7 @@ def one_fake_run(ctx, cfg, seed, resume):
     ctx.traces += 1
     ctx.case(("fake", repr(cfg), seed, resume), True,
              {"cfg": cfg, "seed": seed, "snapshots": len(snaps), "samples_compared": nsamp, "ops": [o[:80] for o in ops[:4]]},
-             kind=f"tilt:strict={int(cfg['strict'])}:repl={int(cfg['replace_all'])}:iid={int(cfg['iid'])}:{cfg['reparam']}:cut={int(cfg.get('cut', False))}")
+             kind=f"tilt:strict={int(cfg['strict'])}:repl={int(cfg['replace_all'])}:iid={int(cfg['iid'])}:{cfg['reparam']}:cut={int(cfg.get('cut', False))}:mid-resume={int(bool(cfg.get('resume_mid')))}")
     ctx.hist["samples_compared"] += nsamp
 
 
